@@ -259,6 +259,25 @@ M('C03', 'encrypters-filter-after-read', PGP, "        return set(m.encrypter fo
 M('C03', 'selection-or-keyid', PGP, SEL, "        pkesk = next(pk for pk in message._sessionkeys if isinstance(pk, PKESessionKey)\n                     and (pk.pkalg == self.key_algorithm or pk.encrypter == self.fingerprint.keyid))\n", 'C03.8')
 M('C03', 'selection-keyid-negated', PGP, SEL, "        pkesk = next(pk for pk in message._sessionkeys if isinstance(pk, PKESessionKey)\n                     and pk.pkalg == self.key_algorithm and pk.encrypter != self.fingerprint.keyid)\n", 'C03.8')
 
+SEL2 = SEL + "        alg, key = pkesk.decrypt_sk(self._key)\n"
+T('C03', 'twin-selection-loop-break', PGP, SEL,
+  "        pkesk = None\n        for pk in message._sessionkeys:\n            if isinstance(pk, PKESessionKey) and pk.pkalg == self.key_algorithm and pk.encrypter == self.fingerprint.keyid:\n                pkesk = pk\n                break\n")
+T('C03', 'twin-selection-loop-guard-clauses', PGP, SEL2,
+  "        wanted = self.fingerprint.keyid\n        for candidate in message._sessionkeys:\n            if not isinstance(candidate, PKESessionKey):\n                continue\n            if candidate.pkalg != self.key_algorithm or wanted != candidate.encrypter:\n                continue\n"
+  "            alg, key = candidate.decrypt_sk(self._key)\n            break\n        else:\n            raise StopIteration()\n")
+T('C03', 'twin-selection-chained-lists', PGP, SEL,
+  "        pkesks = [pk for pk in message._sessionkeys if isinstance(pk, PKESessionKey)]\n        mine = [pk for pk in pkesks if pk.encrypter == self.fingerprint.keyid]\n        pkesk = [pk for pk in mine if pk.pkalg == self.key_algorithm][0]\n")
+T('C03', 'twin-encrypters-checked-once', PGP, "        if self.fingerprint.keyid not in message.encrypters:\n            sks = set(self.subkeys)\n            mis = set(message.encrypters)\n",
+  "        mis = set(message.encrypters)\n        if self.fingerprint.keyid not in mis:\n            sks = set(self.subkeys)\n")
+M('C03', 'selection-loop-any-pkesk-of-algorithm', PGP, SEL,
+  "        pkesk = None\n        for pk in message._sessionkeys:\n            if isinstance(pk, PKESessionKey) and pk.pkalg == self.key_algorithm:\n                pkesk = pk\n                break\n", 'C03.8')
+M('C03', 'selection-loop-guard-skips-own-keyid', PGP, SEL2,
+  "        wanted = self.fingerprint.keyid\n        for candidate in message._sessionkeys:\n            if not isinstance(candidate, PKESessionKey):\n                continue\n            if candidate.pkalg != self.key_algorithm or wanted == candidate.encrypter:\n                continue\n"
+  "            alg, key = candidate.decrypt_sk(self._key)\n            break\n        else:\n            raise StopIteration()\n", 'C03.8')
+M('C03', 'selection-first-pkesk', PGP, SEL, "        pkesk = [pk for pk in message._sessionkeys if isinstance(pk, PKESessionKey)][0]\n", 'C03.8')
+M('C03', 'selection-loop-no-class-filter', PGP, SEL,
+  "        pkesk = None\n        for pk in message._sessionkeys:\n            if pk.pkalg == self.key_algorithm and pk.encrypter == self.fingerprint.keyid:\n                pkesk = pk\n                break\n", 'C03.8')
+
 # =============================================================================================== C02
 M('C02', 'hash2-last-two', PGP, "        sig._signature.hash2 = bytearray(h2.digest()[:2])", "        sig._signature.hash2 = bytearray(h2.digest()[-2:])", 'C02.2')
 M('C02', 'signer-hashdata-none', PGP, "        _sig = self._key.sign(sigdata, getattr(hashes, sig.hash_algorithm.name)())", "        _sig = self._key.sign(sig.hashdata(None), getattr(hashes, sig.hash_algorithm.name)())", 'C02.2')
